@@ -2,7 +2,7 @@
 import scopedom
 
 OBS = 'ObsC06'
-LABELS = {'quick': 'cancel abort graceful cancel_close'.split(), 'thorough': 'cancel abort graceful cancel_close'.split()}
+LABELS = {'quick': 'cancel abort graceful cancel_close cancel_nested cancel_grace'.split(), 'thorough': 'cancel abort graceful cancel_close cancel_nested cancel_grace'.split()}
 
 
 def run(check):
